@@ -49,7 +49,7 @@ RootParts(T) == {Below(T, c) : c \in Kids(T, ROOT)}
 Clusters(T) == {cl \in {Below(T, e) : e \in Dom(T)} : Cardinality(cl) >= 2}
 
 Obs(T) == [tips |-> TipsOf(T), splits |-> Splits(T), dist |-> Dists(T),
-           rootparts |-> RootParts(T)]
+           rootparts |-> RootParts(T), nnodes |-> Cardinality(Dom(T))]
 
 (* T2 shows the same tips R, the same unrooted topology among them and the   *)
 (* same tip-to-tip path lengths as T1 restricted to R                        *)
